@@ -15,6 +15,7 @@ import FwdVerif.Driver.C14
 import FwdVerif.Driver.C07
 import FwdVerif.Driver.C15
 import FwdVerif.Driver.H2
+import FwdVerif.Driver.C13
 
 open FwdVerif
 
@@ -34,6 +35,7 @@ def dispatch (line : String) : String :=
   | "C15" :: rest => C15.handle rest
   | "C09" :: rest => H2.handle rest
   | "C10" :: rest => H2.handle rest
+  | "C13" :: rest => C13.handle rest
   | ["ping"] => "pong"
   | _ => "bad-op"
 
